@@ -29,7 +29,7 @@ KINDS = ['int64', 'int32', 'float64', 'float32', 'bool', 'str_obj', 'str_pd3', '
 MUTS = ['copy', 'copy', 'copy', 'value', 'value', 'null_to_value', 'value_to_null', 'float_small', 'float_large', 'rename', 'retype',
         'move', 'drop', 'add_col', 'add_row', 'remove_row', 'swap_rows', 'retype_and_value']
 ENTRIES = ['check_dataframe', 'check_dataframe', 'assertDataFramesEqual', 'assertDataFrameCorrect-parquet',
-           'assertDataFrameCorrect-csv', 'assertOnDisk-parquet', 'assertOnDisk-csv']
+           'assertDataFrameCorrect-csv', 'assertOnDisk-parquet', 'assertOnDisk-csv', 'assertOnDiskList-parquet', 'assertOnDiskList-csv']
 RULE = ('case = reference frame (unique int key + 1-4 columns over 15 dtypes incl. object/str/string/categorical strings, '
         'nullable extension types, datetimes; nulls anywhere) + ONE planted difference from {none, cell value, null<->value, '
         'float below/above the precision, rename, retype, move, drop, extra column, extra/missing row, swapped rows} x '
@@ -266,6 +266,8 @@ def gen_case(rng, i):
         kv = base['cols'][0]['values'][mut['row']]
         mut['row_filtered_by_condition'] = not (kv < opts['condition']['k_lt'])
     case = {'base': base, 'actual': act, 'mut': mut, 'opts': opts, 'entry': entry}
+    if entry.startswith('assertOnDiskList'):
+        case['pos'] = rng.randrange(4)
     if not entry.startswith('assertOnDisk') and rng.random() < 0.35:
         # frames handed over in memory need not carry a default index (a filtered, re-sorted or relabelled frame):
         # values correspond by position, whatever the row labels are
@@ -384,6 +386,18 @@ def run_case(ctx, case):
                     if tm:
                         ro['type_matching'] = tm
                     r.assertDataFrameCorrect(act_df, refp, kind=ext, **ro)
+                elif entry.startswith('assertOnDiskList'):
+                    # the list form: this pair among pairs that agree (every option applies to every pair)
+                    g1, g2 = os.path.join(d, 'good_a.' + ext), os.path.join(d, 'good_r.' + ext)
+                    for p_ in (g1, g2):
+                        ref_df.to_parquet(p_) if ext == 'parquet' else ref_df.to_csv(p_, index=False)
+                    k_ = case.get('pos', 0) % 2
+                    aps, rps = [g1, g1], [g2, g2]
+                    aps[k_], rps[k_] = actp, refp
+                    if ext == 'csv' and case.get('pos', 0) >= 2:
+                        r.assertCSVFilesCorrect(aps, rps, **ro)
+                    else:
+                        r.assertOnDiskDataFramesCorrect(aps, rps, kind=ext, **ro)
                 else:
                     r.assertOnDiskDataFrameCorrect(actp, refp, kind=ext, **ro)
     except Exception as e:
